@@ -399,7 +399,7 @@ Proof.
     rewrite (H p). destruct (index_of x (L' p)); [apply U1 | exact H].
   - (* MoveDown *) rewrite (sp_container_ext dom L L' x H). destruct (sp_container dom L' x) as [p|]; [|exact H].
     rewrite (H p). destruct (index_of x (L' p)); [apply U1 | exact H].
-  - exact H. - exact H. - exact H. - exact H. - exact H. - exact H. - exact H. - exact H. - exact H. - exact H.
+  - exact H. - exact H. - exact H. - exact H. - exact H. - exact H. - exact H. - exact H. - exact H. - exact H. - exact H.
 Qed.
 
 (* ---------------------------------------------------------------- Group.group_layers *)
@@ -571,6 +571,7 @@ Proof.
   - (* ObsDesc *) reflexivity.
   - (* ObsFind *) reflexivity.
   - (* ObsVisible *) cbn [sp_apply]. destruct (isvis (fuel_of s) s x); reflexivity.
+  - (* ObsExport *) reflexivity.
 Qed.
 
 (* ---------------------------------------------------------------- histories *)
